@@ -1174,10 +1174,15 @@ func EvalProgram(progSrc string, files []InputFile, rootSelectors []string, stdo
 	for _, file := range files {
 		// for each json value
 		d := json.NewDecoder(file.Reader)
-		for d.More() {
+		for {
 			var rootValue any
 			err := d.Decode(&rootValue)
+			if err == io.EOF {
+				// no more values
+				break
+			}
 			if err != nil {
+				// anything else, bad JSON or a failed read, is an error
 				return &ev, JsonError{err.Error(), file.Name}
 			}
 
